@@ -59,13 +59,14 @@ def run(ctx):
     for n in procs:
         for cls in cl["classes"]:
             for pos in range(1, nb + 1):
-                for variant in ([0] if q else [0, 1]):
+                for variant in ([0, 1] if q and pos == 2 else [0] if q else [0, 1, 2, 3]):
                     blocks = [({"k": "bad", "n": 0} if b == pos else {"k": "data", "n": 4}) for b in range(1, nb + 1)]
                     dmg.append({"kind": "dmg", "class": cls, "pos": pos, "nb": nb, "n": n, "variant": variant,
                                 "cfg": {"n": n, "blocks": blocks, "endkind": "eof", "hdr": "ok"}})
         for cls in cl["header"]:
-            dmg.append({"kind": "dmg", "class": cls, "pos": 0, "nb": 2, "n": n, "variant": 0,
-                        "cfg": {"n": n, "blocks": [{"k": "data", "n": 4}] * 2, "endkind": "eof", "hdr": "feature"}})
+            for variant in (0, 1):
+                dmg.append({"kind": "dmg", "class": cls, "pos": 0, "nb": 2, "n": n, "variant": variant,
+                            "cfg": {"n": n, "blocks": [{"k": "data", "n": 4}] * 2, "endkind": "eof", "hdr": "feature"}})
     drecs = P.run_pipe(ctx, dmg, binname="pbfdmg")
     for r in drecs:
         r.setdefault("trace", []), r.setdefault("sched", []), r.setdefault("diverged", "")
